@@ -79,3 +79,9 @@ package sema
 // contract of Compare is the interface contract intervalst.Position.Compare (proved here for this implementor).
 //@ needs C51
 //@ typeint Position: self.Line * pow2(64) + self.Column
+
+// ---- C21: which integer types count as unsigned for the default-step range constructor (it refuses a descending
+// range for them): exactly UInt, UInt8..UInt256 and Word8..Word256 belong to UnsignedIntegerTypeTag, none of the
+// signed ones does. Computed from the tag masks as the package initialiser builds them.
+//@ spec tagbelongs(t, u) = (t.lowerMask & u.lowerMask) == t.lowerMask && (t.upperMask & u.upperMask) == t.upperMask
+//@ theorem[C21] T_unsigned_integer_tags() = tagbelongs(UIntTypeTag, UnsignedIntegerTypeTag) && tagbelongs(UInt8TypeTag, UnsignedIntegerTypeTag) && tagbelongs(UInt16TypeTag, UnsignedIntegerTypeTag) && tagbelongs(UInt32TypeTag, UnsignedIntegerTypeTag) && tagbelongs(UInt64TypeTag, UnsignedIntegerTypeTag) && tagbelongs(UInt128TypeTag, UnsignedIntegerTypeTag) && tagbelongs(UInt256TypeTag, UnsignedIntegerTypeTag) && tagbelongs(Word8TypeTag, UnsignedIntegerTypeTag) && tagbelongs(Word16TypeTag, UnsignedIntegerTypeTag) && tagbelongs(Word32TypeTag, UnsignedIntegerTypeTag) && tagbelongs(Word64TypeTag, UnsignedIntegerTypeTag) && tagbelongs(Word128TypeTag, UnsignedIntegerTypeTag) && tagbelongs(Word256TypeTag, UnsignedIntegerTypeTag) && !tagbelongs(IntTypeTag, UnsignedIntegerTypeTag) && !tagbelongs(Int8TypeTag, UnsignedIntegerTypeTag) && !tagbelongs(Int16TypeTag, UnsignedIntegerTypeTag) && !tagbelongs(Int32TypeTag, UnsignedIntegerTypeTag) && !tagbelongs(Int64TypeTag, UnsignedIntegerTypeTag) && !tagbelongs(Int128TypeTag, UnsignedIntegerTypeTag) && !tagbelongs(Int256TypeTag, UnsignedIntegerTypeTag)
